@@ -82,6 +82,17 @@ def _per_config(ctx, R, fn, configs=None):
         R.extend(r)
 
 
+def _tab1_parse(units, r):
+    """the parser's recursion (C01, C03); the duplicator's is C11's"""
+    from .rules import parse
+    parse.tab1(units, r, claim=('parse_value',))
+
+
+def _tab1_dup(units, r):
+    from .rules import parse
+    parse.tab1(units, r, claim=('cJSON_Duplicate_rec',))
+
+
 def _inl(rule):
     """the rule looks at one function at a time: give it the view in which static helpers the pinned tree does not have are
     inlined where they are called (cjsa/specialize.py); the engines that follow calls themselves keep the program as written"""
@@ -262,7 +273,7 @@ def run_C19(ctx, R):
 def run_C01(ctx, R):
     from .rules import bnd, parse
     _per_config(ctx, R, bnd.bnd_parse)
-    _per_config(ctx, R, parse.tab1)
+    _per_config(ctx, R, _tab1_parse)
     _per_config(ctx, R, parse.tab1_depth_balance)
     _per_config(ctx, R, _inl(parse.bnd6))
     _per_config(ctx, R, parse.tab2_parse)
@@ -391,7 +402,7 @@ def run_C06(ctx, R):
 def run_C11(ctx, R):
     from .rules import tree, parse, lst
     _per_config(ctx, R, tree.tab14)
-    _per_config(ctx, R, _only_functions(parse.tab1, {'cJSON_Duplicate_rec'}, 'TAB1', 2))
+    _per_config(ctx, R, _only_functions(_tab1_dup, {'cJSON_Duplicate_rec'}, 'TAB1', 2))
     _per_config(ctx, R, _only_functions(lst.lst1, {'cJSON_Duplicate_rec'}, 'LST1', 1))
     _per_config(ctx, R, _only_functions(tree.lst4, {'cJSON_Duplicate', 'cJSON_Duplicate_rec'}, 'LST4', 0))
     _per_config(ctx, R, _only_functions(_own_cjson, {'cJSON_Duplicate', 'cJSON_Duplicate_rec'}, 'OWN2', 4))
@@ -476,7 +487,7 @@ def run_C02(ctx, R):
 
 def run_C03(ctx, R):
     from .rules import parse, own, tab
-    _per_config(ctx, R, parse.tab1)
+    _per_config(ctx, R, _tab1_parse)
     _per_config(ctx, R, _only_functions(_own_cjson, PARSE_FNS, 'OWN2', 8))
     _per_config(ctx, R, parse.tab5a)
     _per_config(ctx, R, _only_functions(parse.tab17, PARSE_FNS, 'TAB17', 10))
